@@ -303,3 +303,70 @@ def replay_expanded_additional(which):
         want = [str(nm) + (".0" if which == "starts" else ".1") for nm in names]
         return dict(ok=list(got) != want, function="NodeExpandedDiGraph.get_expanded_additional_%s" % which, input=names, expected=want, observed=list(got))
     return run
+
+
+def replay_fix_zero(dag):
+    """native replay for _apply_safety_optimizations_fix_zero_edges: the real method runs on a stand-in `self` (real stDAG / stDiGraph, recording
+    solver) for every small graph of a fixed family and every list of <= 3 of its edges; the set of (edge, layer) pairs it fixes to 0 is compared
+    with the contract (fixed only if not listed, not behind the last node, not before the first node, bridging no gap), the reachability sets
+    being the real graph object's own answers."""
+    def run(o, model):
+        import itertools
+        import networkx as nx
+        import flowpaths as fp
+        if dag:
+            from flowpaths.abstractpathmodeldag import AbstractPathModelDAG as A
+            attr, mk = "paths_to_fix", fp.stDAG
+            shapes = [[("a", "b"), ("b", "c"), ("a", "c"), ("c", "d")], [("a", "b"), ("a", "c"), ("b", "d"), ("c", "d"), ("d", "e")],
+                      [("a", "b"), ("b", "c"), ("c", "d"), ("a", "d"), ("b", "d")]]
+        else:
+            from flowpaths.abstractwalkmodeldigraph import AbstractWalkModelDiGraph as A
+            attr, mk = "walks_to_fix", fp.stDiGraph
+            shapes = [[("a", "b"), ("b", "c"), ("c", "b"), ("c", "d")], [("s", "a"), ("a", "b"), ("b", "a"), ("b", "c"), ("a", "c")],
+                      [("s", "a"), ("a", "b"), ("b", "b"), ("b", "c"), ("c", "a"), ("c", "d")]]
+        fn = A._apply_safety_optimizations_fix_zero_edges
+        tried = 0
+
+        class Tok:
+            def __init__(self, k): self.k = k
+            def __eq__(self, other): return ("fix", self.k, other)
+            __hash__ = None
+
+        class EV:
+            def __getitem__(self, k): return Tok(k)
+
+        class Rec:
+            def __init__(self): self.rows = []
+            def add_constraint(self, row, name=None): self.rows.append(row)
+            def queue_fix_variable(self, var, value): self.rows.append(("fix", var.k, value))
+
+        class Me:
+            pass
+        for E in shapes:
+            g = nx.DiGraph()
+            g.add_edges_from(E)
+            G = mk(g)
+            edges = list(G.edges())
+            reach = {x: set(G.nodes_reachable(x)) if hasattr(G, "nodes_reachable") else set(G.reachable_nodes_from[x]) for x in G.nodes()}
+            for n in (1, 2, 3):
+                for lst in itertools.permutations(edges, n):
+                    lst = [tuple(e) for e in lst]
+                    me = Me()
+                    setattr(me, attr, [lst])
+                    me.k, me.G, me.solver, me.edge_vars, me.edges_set_to_zero, me.solve_statistics = 1, G, Rec(), EV(), {}, {}
+                    tried += 1
+                    try:
+                        fn(me)
+                    except Exception as e:      # noqa
+                        return dict(ok=True, function=fn.__qualname__, graph=E, safe_list=lst, observed="raised %s: %s" % (type(e).__name__, e))
+                    for row in me.solver.rows:
+                        if not (isinstance(row, tuple) and row[0] == "fix"):
+                            continue
+                        (u, v, i), val = row[1], row[2]
+                        may = ((u, v) in lst or u in reach[lst[-1][1]] or lst[0][0] in reach[v] or
+                               any((not dag or lst[q][1] != lst[q + 1][0]) and u in reach[lst[q][1]] and lst[q + 1][0] in reach[v] for q in range(n - 1)))
+                        if may or val != 0:
+                            return dict(ok=True, function=fn.__qualname__, graph=E, safe_list=lst, fixed=[u, v, i], value=val,
+                                        expected="not fixed: a route containing the list in order can use this edge" if may else "fixed to 0")
+        return dict(ok=False, function=fn.__qualname__, tried=tried)
+    return run
